@@ -290,6 +290,7 @@ pub struct EnginePanic {
 
 impl<'s> Interp<'s> {
     pub fn new(opts: Opts, sb: &'s Sandbox) -> Result<Interp<'s>, EnginePanic> {
+        journal::begin(&opts);
         let ctx = Ctx::new(opts, sb).map_err(|info| EnginePanic { info, at: 0 })?;
         Ok(Interp { ctx, sb, trace: vec![], last: None, skipped_commit: 0, skipped_update: 0, skipped_learned: 0, typed_on_learned: 0 })
     }
@@ -327,6 +328,7 @@ impl<'s> Interp<'s> {
     ) -> Result<Result<(), crate::runner::Failure>, EnginePanic> {
         let at = self.trace.len();
         self.trace.push(ev.clone());
+        journal::event(&ev);
         let wrap = |info| EnginePanic { info, at };
         let outcome = match &ev {
             Ev::Key { code, m, sel } => {
@@ -457,4 +459,129 @@ pub fn trace_json(opts: &Opts, trace: &[Ev]) -> serde_json::Value {
         "events": trace,
         "readable": trace.iter().map(ev_to_string).collect::<Vec<_>>(),
     })
+}
+
+/// Dictionary-guided spellings: short dictionary words romanised with a rough inverse of the Avro table
+/// (no inherent vowels), kept only if the independent oracle confirms that the word is a direct
+/// candidate of the spelling (okkhor pattern match).  Up to 12 per final character, so that bases
+/// ending in every vowel sign, khanda-ta, anusvara, visarga ... are typed by C07 / C08.
+pub fn guided_bases() -> &'static Vec<(String, String)> {
+    static G: OnceLock<Vec<(String, String)>> = OnceLock::new();
+    G.get_or_init(|| {
+        let rom = |c: char| -> Option<&'static str> {
+            Some(match c {
+                '\u{0985}' => "o", '\u{0986}' => "a", '\u{0987}' => "i", '\u{0988}' => "i", '\u{0989}' => "u", '\u{098A}' => "u", '\u{098B}' => "rri",
+                '\u{098F}' => "e", '\u{0990}' => "oi", '\u{0993}' => "o", '\u{0994}' => "ou",
+                '\u{0995}' => "k", '\u{0996}' => "kh", '\u{0997}' => "g", '\u{0998}' => "gh", '\u{0999}' => "ng", '\u{099A}' => "c", '\u{099B}' => "ch",
+                '\u{099C}' => "j", '\u{099D}' => "jh", '\u{099E}' => "n", '\u{099F}' => "t", '\u{09A0}' => "th", '\u{09A1}' => "d", '\u{09A2}' => "dh",
+                '\u{09A3}' => "n", '\u{09A4}' => "t", '\u{09A5}' => "th", '\u{09A6}' => "d", '\u{09A7}' => "dh", '\u{09A8}' => "n", '\u{09AA}' => "p",
+                '\u{09AB}' => "f", '\u{09AC}' => "b", '\u{09AD}' => "v", '\u{09AE}' => "m", '\u{09AF}' => "z", '\u{09B0}' => "r", '\u{09B2}' => "l",
+                '\u{09B6}' => "sh", '\u{09B7}' => "sh", '\u{09B8}' => "s", '\u{09B9}' => "h", '\u{09DC}' => "r", '\u{09DD}' => "rh", '\u{09DF}' => "y",
+                '\u{09CE}' => "t", '\u{0982}' => "ng", '\u{0983}' => "h", '\u{0981}' => "",
+                '\u{09BE}' => "a", '\u{09BF}' => "i", '\u{09C0}' => "i", '\u{09C1}' => "u", '\u{09C2}' => "u", '\u{09C3}' => "rri", '\u{09C7}' => "e",
+                '\u{09C8}' => "oi", '\u{09CB}' => "o", '\u{09CC}' => "ou", '\u{09CD}' => "",
+                _ => return None,
+            })
+        };
+        let mut per_final: std::collections::HashMap<char, usize> = std::collections::HashMap::new();
+        let mut out = vec![];
+        for w in model::data().all_words.iter().step_by(3) {
+            let n = w.chars().count();
+            if !(2..=5).contains(&n) {
+                continue;
+            }
+            let last = w.chars().last().unwrap();
+            if per_final.get(&last).copied().unwrap_or(0) >= 12 {
+                continue;
+            }
+            let latin: Option<String> = w.chars().map(rom).collect::<Option<Vec<_>>>().map(|v| v.concat());
+            let latin = match latin {
+                Some(l) if !l.is_empty() && l.len() <= 9 => l,
+                _ => continue,
+            };
+            if crate::phon::is_direct_dict(&latin, w) {
+                *per_final.entry(last).or_insert(0) += 1;
+                out.push((latin, w.clone()));
+            }
+        }
+        out
+    })
+}
+
+/// Crash journal (C01): when `VERIF_JOURNAL_DIR` is set every thread mirrors the history it is
+/// executing to its own small file BEFORE each engine call (one `write` on tmpfs, ~1 us).  If the
+/// process then dies (stack overflow, abort) or a call never returns, the supervising parent finds the
+/// exact concrete trace up to the fatal event in that file.  `end()` empties the file.
+pub mod journal {
+    use super::Ev;
+    use crate::driver::Opts;
+    use std::cell::RefCell;
+    use std::fs::File;
+    use std::io::{Seek, SeekFrom, Write};
+    use std::sync::atomic::{AtomicUsize, Ordering};
+
+    static NEXT: AtomicUsize = AtomicUsize::new(0);
+    thread_local! {
+        static FILE: RefCell<Option<File>> = const { RefCell::new(None) };
+    }
+
+    fn with_file(f: impl FnOnce(&mut File)) {
+        FILE.with(|cell| {
+            let mut slot = cell.borrow_mut();
+            if slot.is_none() {
+                if let Ok(dir) = std::env::var("VERIF_JOURNAL_DIR") {
+                    let _ = std::fs::create_dir_all(&dir);
+                    let n = NEXT.fetch_add(1, Ordering::Relaxed);
+                    *slot = File::create(format!("{dir}/thread{n}.jsonl")).ok();
+                }
+            }
+            if let Some(file) = slot.as_mut() {
+                f(file);
+            }
+        });
+    }
+
+    pub fn enabled() -> bool {
+        std::env::var("VERIF_JOURNAL_DIR").is_ok()
+    }
+
+    pub fn begin(opts: &Opts) {
+        if !enabled() {
+            return;
+        }
+        with_file(|f| {
+            let _ = f.set_len(0);
+            let _ = f.seek(SeekFrom::Start(0));
+            let _ = writeln!(f, "{}", serde_json::json!({"opts": opts.letters()}));
+        });
+    }
+
+    pub fn event(ev: &Ev) {
+        if !enabled() {
+            return;
+        }
+        with_file(|f| {
+            let _ = writeln!(f, "{}", serde_json::to_string(ev).unwrap_or_default());
+        });
+    }
+
+    pub fn end() {
+        if !enabled() {
+            return;
+        }
+        with_file(|f| {
+            let _ = f.set_len(0);
+            let _ = f.seek(SeekFrom::Start(0));
+        });
+    }
+
+    /// Parse a journal file into (opts letters, events).
+    pub fn read(path: &std::path::Path) -> Option<(String, Vec<Ev>)> {
+        let text = std::fs::read_to_string(path).ok()?;
+        let mut lines = text.lines();
+        let head: serde_json::Value = serde_json::from_str(lines.next()?).ok()?;
+        let opts = head["opts"].as_str()?.to_string();
+        let events: Vec<Ev> = lines.filter_map(|l| serde_json::from_str(l).ok()).collect();
+        Some((opts, events))
+    }
 }
